@@ -18,6 +18,7 @@ import (
 	"bytes"
 	"encoding/binary"
 	"fmt"
+	"github.com/google/uuid"
 	"github.com/hyperjumptech/grule-rule-engine/ast/unique"
 	"github.com/sirupsen/logrus"
 	"io"
@@ -251,6 +252,8 @@ func (cat *Catalog) BuildKnowledgeBase() (*KnowledgeBase, error) {
 				Salience:        amet.Salience,
 				WhenScope:       nil,
 				ThenScope:       nil,
+				// the stream has no field for the flag: a removed rule is stored under its tombstone name
+				Deleted: isTombstoneName(amet.RuleName),
 			}
 			importTable[amet.AstID] = ruleEntry
 			knowledgeBase.RuleEntries[ruleEntry.RuleName] = ruleEntry
@@ -1961,6 +1964,18 @@ func (meta *FunctionCallMeta) ReadMetaFrom(reader io.Reader) error {
 	meta.ArgumentListID = stringFromReader
 
 	return nil
+}
+
+// isTombstoneName tells whether name is one that RemoveRuleEntry gives to a removed rule: "Deleted_" followed by a UUID.
+func isTombstoneName(name string) bool {
+	const prefix = "Deleted_"
+	if len(name) != len(prefix)+36 || name[:len(prefix)] != prefix {
+
+		return false
+	}
+	_, err := uuid.Parse(name[len(prefix):])
+
+	return err == nil
 }
 
 // RuleEntryMeta meta data for an RuleEntry node
